@@ -189,19 +189,21 @@ Fixpoint merge_nv (acc : nvdict) (other : nvdict) : res nvdict :=
     end
   end.
 
-Record parcels := mkPar { pa_name : list Z; pa_voxels : list Z; pa_vertices : list Z;
+(* the vertices of one parcel: a dict structure -> vertex indices (insertion order, distinct keys) *)
+Definition vdict := list (Z * list Z).
+Record parcels := mkPar { pa_name : list Z; pa_voxels : list Z; pa_vertices : list vdict;
                           pa_vol : option vol; pa_nv : nvdict }.
-Definition par_make (name voxels vertices : list Z) (v : option vol) (nv : nvdict) : res parcels :=
+Definition par_make (name voxels : list Z) (vertices : list vdict) (v : option vol) (nv : nvdict) : res parcels :=
   if (zlen voxels =? zlen name) && (zlen vertices =? zlen name)
   then Ok (mkPar name voxels vertices v nv) else Err EShape.
 Definition par_len (a : parcels) : Z := zlen (pa_name a).
-Definition par_elements (a : parcels) : list (Z * Z * Z) :=
+Definition par_elements (a : parcels) : list (Z * Z * vdict) :=
   combine (combine (pa_name a) (pa_voxels a)) (pa_vertices a).
 Definition par_getitem (a : parcels) (ix : index) : res parcels :=
   match resolve (par_len a) ix with
   | Err e => Err e
   | Ok pos => par_make (select 0 (pa_name a) pos) (select 0 (pa_voxels a) pos)
-                       (select 0 (pa_vertices a) pos) (pa_vol a) (pa_nv a)
+                       (select [] (pa_vertices a) pos) (pa_vol a) (pa_nv a)
   end.
 Definition par_add (a b : parcels) : res parcels :=
   match merge_vol (pa_vol a) (pa_vol b) with
@@ -417,10 +419,27 @@ Definition sc_eqb (a b : scalar) : bool :=
 Definition lab_eqb (a b : label) : bool :=
   (lab_len a =? lab_len b) && list_eqb (lb_name a) (lb_name b) && list_eqb (lb_meta a) (lb_meta b)
   && list_eqb (lb_label a) (lb_label b).
+(* ParcelsAxis.__eq__, line for line.  The per-parcel loop
+     for vert1, vert2 in zip(self.vertices, other.vertices):
+         if len(vert1) != len(vert2): return False
+         for name in vert1.keys():
+             if name not in vert2 or not np.array_equal(vert1[name], vert2[name]): return False
+   is vdict_eqb on every pair.  zip never truncates: the constructor checks that vertices has one
+   entry per parcel and the sizes were compared first; the model says so with a length test. *)
+Fixpoint vlookup (d : vdict) (k : Z) : option (list Z) :=
+  match d with
+  | [] => None
+  | (k', v) :: r => if k' =? k then Some v else vlookup r k
+  end.
+Definition vdict_eqb (v1 v2 : vdict) : bool :=
+  (zlen v1 =? zlen v2)
+  && forallb (fun kv => match vlookup v2 (fst kv) with Some idx => list_eqb (snd kv) idx | None => false end) v1.
+Definition verts_eqb (l1 l2 : list vdict) : bool :=
+  (zlen l1 =? zlen l2) && forallb (fun p => vdict_eqb (fst p) (snd p)) (combine l1 l2).
 Definition par_eqb (a b : parcels) : bool :=
   (par_len a =? par_len b) && list_eqb (pa_name a) (pa_name b) && dict_eqb (pa_nv a) (pa_nv b)
   && list_eqb (pa_voxels a) (pa_voxels b) && opt_vol_eqb (pa_vol a) (pa_vol b)
-  && list_eqb (pa_vertices a) (pa_vertices b).
+  && verts_eqb (pa_vertices a) (pa_vertices b).
 
 Inductive axis := ABm (a : bm) | APar (a : parcels) | ASc (a : scalar) | ALab (a : label)
                 | ASer (a : series).
